@@ -9,6 +9,7 @@ from .events import (
     UserDirectoryEvent,
     UserSharesReplyEvent,
 )
+from .protocol.primitives import DirectoryData
 from .protocol.messages import (
     PeerDirectoryContentsRequest,
     PeerDirectoryContentsReply,
@@ -115,6 +116,19 @@ class PeerManager(BaseManager):
             return
 
         directories = self._shares_manager.create_directory_reply(message.directory)
+        # Files locked for the user are not listed: the reply has no separate
+        # list for locked files
+        directories = [
+            DirectoryData(
+                name=directory.name,
+                files=[
+                    file for file in directory.files
+                    if self._shares_manager.find_shared_item_cache(
+                        f"{directory.name}\\{file.filename}", connection.username)
+                ]
+            )
+            for directory in directories
+        ]
         await connection.send_message(
             PeerDirectoryContentsReply.Request(
                 ticket=message.ticket,
